@@ -498,11 +498,17 @@ def worker_main(path, k, nk):
             case["buf"] = bytes.fromhex(case["buf"])
             signal.alarm(CASE_TIMEOUT)
             try:
-                res = observe(case, scratch)
+                try:
+                    res = observe(case, scratch)
+                except CaseTimeout:
+                    # a busy machine can stall one case: ask once more with a long limit before calling it a hang
+                    signal.alarm(6 * CASE_TIMEOUT)
+                    res = observe(case, scratch)
             except CaseTimeout:
                 hangs += 1
                 res = {"id": case["id"], "line": "err <timeout>", "ref_status": "struct",
-                       "oracle": {"sig": "hang", "why": f"no answer within {CASE_TIMEOUT}s"}}
+                       "oracle": {"sig": "hang", "why": f"no answer within {CASE_TIMEOUT}s, nor within "
+                                                        f"{6 * CASE_TIMEOUT}s when asked again"}}
             except BaseException as e:   # never lose a case
                 res = {"id": case["id"], "line": f"err <harness:{type(e).__name__}:{e}>",
                        "ref_status": "struct", "oracle": None}
